@@ -244,6 +244,7 @@ pub fn wdec(ctx: &mut Ctx, plan: DecPlan) {
     if plan.both_keys && !cfg!(miri) {
         both_keys(ctx);
         negated_key_pairs(ctx);
+        ed_small_order(ctx);
         // byte-value sweeps and ground signatures (special byte values inside keys, values, signatures)
         for (i, scheme) in [Scheme::Secp, Scheme::Ed, Scheme::Toy].into_iter().enumerate() {
             if !ctx.mine(1000 + i as u64) {
@@ -339,6 +340,36 @@ pub fn both_keys(ctx: &mut Ctx) {
                 let cls = format!("both-keys/secp-{sn}/ed-{en}/signed-{}", signer.scheme.name());
                 judge_input(ctx, &cls, &rec.bytes(), JudgeOpts { text: false });
             }
+        }
+    }
+}
+
+/// ed25519 records whose public key is a small-order point, with the signature R = identity, s = 0 (which the
+/// cofactorless equation accepts when [h]A is the identity): an open region for C02, but the ed25519 key
+/// type and CombinedKey must still agree on them (C11), and whatever is accepted must not break C03/C04.
+pub fn ed_small_order(ctx: &mut Ctx) {
+    let points: [&str; 4] = [
+        "0100000000000000000000000000000000000000000000000000000000000000", // identity
+        "ecffffffffffffffffffffffffffffffffffffffffffffffffffffffffffffff7f", // order 2
+        "0000000000000000000000000000000000000000000000000000000000000000", // order 4
+        "0000000000000000000000000000000000000000000000000000000000000080", // order 4
+    ];
+    let mut sig = vec![0u8; 64];
+    sig[0] = 1;
+    for (i, p) in points.iter().enumerate() {
+        if !ctx.mine(4000 + i as u64) {
+            continue;
+        }
+        let pk = crate::util::unhex(p).unwrap();
+        for seq in 1..=24u64 {
+            let items = vec![
+                Item::S(rlp::uint_bytes(seq)),
+                Item::S(b"ed25519".to_vec()),
+                Item::S(pk.clone()),
+                Item::S(b"id".to_vec()),
+                Item::S(b"v4".to_vec()),
+            ];
+            judge_input(ctx, "ed-small-order-key", &gen::assemble_with_sig(&sig, &items), JudgeOpts { text: false });
         }
     }
 }
